@@ -17,7 +17,8 @@ from enc import cbool, crows, ctree, jsonable
 
 THEOREMS = ["C03_backtrack_sound", "C03_apply_with_options_sound", "C03_result_engine",
             "C03_iteration_programs_with_options_denote_their_specification",
-            "C03_join_backtrack_sound", "C03_join_with_options_sound"]
+            "C03_join_backtrack_sound", "C03_join_with_options_sound",
+            "C03_programs_over_both_engine_kinds_denote_their_specification"]
 HDR = "From DR Require Import Model.CheckBack.\nOpen Scope Z_scope.\n"
 
 
